@@ -261,3 +261,5 @@ def run(ctx):
     boundaries.check_guards(ctx, 'C16.RG', 'C16')
     boundaries.check_calls(ctx, 'C16.RC', 'C16')
     boundaries.check_amounts(ctx, 'C16.RA', 'C16')
+    from .. import boundaries as _b
+    _b.check_predicates(ctx, 'C16.RP', 'C16')
